@@ -269,8 +269,12 @@ class RIBFamily:
         return events_to_inputs(evs)
 
     def vh_args(self, ctx, rc):
-        return ["-random", str(rc["n"]), "-len", str(rc["len"]), "-reuse", str(rc.get("reuse", 0)),
-                "-small", str(rc.get("small", 0)), "-bad", str(rc.get("bad", -1))]
+        a = ["-random", str(rc["n"]), "-len", str(rc["len"]), "-reuse", str(rc.get("reuse", 0)),
+             "-small", str(rc.get("small", 0)), "-bad", str(rc.get("bad", -1))]
+        if self.prop == "C16" and self.VH_CMD == "rib-run":
+            # the same input sequences once more on a RIB without reference checks (TUnchecked: MirrorIsRib only)
+            a += ["-nochecks", "600" if ctx.tier == "quick" else "4000"]
+        return a
 
     """Decides a RIB-level property:
        1. TLC model-checks GribiRIB (bounded instance) for the invariants;
@@ -2775,7 +2779,26 @@ def c16_slow_consumer(ctx):
     return out
 
 
-REGISTRY["C16"].parts[0].directed = c16_slow_consumer
+def c16_referenced_delete(ctx):
+    """Deletes aimed at a next-hop / group that is still referenced, then the legal tear-down, in the default and a late instance.
+    Replayed with the reference checks on (refused, no notification) and, by -nochecks, on a RIB built with DisableRIBCheckFn
+    (whatever the RIB then does, the notifications must say the same: TUnchecked)."""
+    out = []
+    for ni, late in (("DEFAULT", False), ("vrf1", False), ("vrf2", True)):
+        for kind in ("v4", "v6", "mpls"):
+            w = [{"a": "reset", "nis": ["DEFAULT", "vrf1"], "fwd": True}]
+            if late:
+                w.append({"a": "addni", "ni": ni})
+            w += [{"a": "op", "op": _op(1, ni, "ADD", "nh", 1, noeid=True)}, {"a": "op", "op": _op(2, ni, "ADD", "nh", 2, noeid=True)},
+                  {"a": "op", "op": _op(3, ni, "ADD", "nhg", 1, nhs=(1, 2), noeid=True)}, {"a": "op", "op": _op(4, ni, "ADD", kind, "k1", g=1, noeid=True)},
+                  {"a": "op", "op": _op(5, ni, "DELETE", "nh", 2, noeid=True)}, {"a": "op", "op": _op(6, ni, "DELETE", "nhg", 1, noeid=True)},
+                  {"a": "op", "op": _op(7, ni, "DELETE", kind, "k1", noeid=True)}, {"a": "op", "op": _op(8, ni, "DELETE", "nhg", 1, noeid=True)},
+                  {"a": "op", "op": _op(9, ni, "DELETE", "nh", 1, noeid=True)}, {"a": "op", "op": _op(10, ni, "DELETE", "nh", 2, noeid=True)}]
+            out.append(json.dumps(w))
+    return out
+
+
+REGISTRY["C16"].parts[0].directed = lambda ctx: c16_referenced_delete(ctx) + c16_slow_consumer(ctx)
 
 
 def c13_dupq(ctx):
